@@ -18,6 +18,7 @@ import Driver.NodeRender
 import Driver.Block
 import Driver.Inline
 import Driver.HtmlDecode
+import Driver.Html
 import Driver.Pipeline
 
 def dispatch (line : String) : String :=
@@ -41,6 +42,7 @@ def dispatch (line : String) : String :=
   | "block" :: args => Driver.Block.handle args
   | "inline" :: args => Driver.Inline.handle args
   | "htmldecode" :: args => Driver.HtmlDecode.handle args
+  | "html" :: args => Driver.Html.handle args
   | "pipeline" :: args => Driver.Pipeline.handle args
   | _ => "bad-stream"
 
